@@ -601,15 +601,8 @@ func (m *Module) DurableQueries(w *engine.World, n *engine.Node) []engine.KV {
 		sort.Strings(rows)
 		out = append(out, engine.KV{K: "random-queue", V: strings.Join(rows, ";")})
 	}
-	for _, id := range engine.SortedKeys(m.reqs) {
-		v := ""
-		if res, err := n.K.Random.Random(ctx, &randomtypes.QueryRandomRequest{ReqId: id}); err != nil {
-			v = "error: " + err.Error()
-		} else {
-			v = res.Random.String()
-		}
-		out = append(out, engine.KV{K: "random:" + id, V: v})
-	}
+	// Fulfilled numbers are not part of the random module's genesis and C12's list of durable
+	// objects names "pending random requests" only: results are not compared.
 	return out
 }
 
